@@ -75,3 +75,16 @@ def attr_true_string(k: int) -> bool:
     # companion of known finding C12-true-false-strings: the strings "true"/"false" come back as bool
     s = ("true", "false")[k]
     return done(_check(_build(s), s))
+
+
+def text_content_arg(s: str) -> bool:
+    """
+    pre: len(s) <= 3 and all(c in ("a", " ", chr(10)) for c in s)
+    post: _
+    """
+    # a constructor's text argument is exposed through text_content (ListItem, and a Cell's display
+    # text), unchanged - trailing line feeds included - also on a fresh wrapper of a copy of the node
+    from odfdo.list import ListItem
+    li = ListItem(s)
+    again = Element.from_tag(deepcopy(li._Element__element))
+    return done(li.text_content == s and again.text_content == s and type(again) is ListItem)
